@@ -201,6 +201,8 @@ func runC20(r *simkit.R) {
 	inFlight := map[*enOp]bool{}
 	unindexed := map[int]bool{} // object -> a put of it was acknowledged by a shard in degraded read-write mode
 	taintFrom := map[int]uint64{}
+	markedOn := map[[2]string]bool{} // (object, shard) -> a removal mark was written there at some time
+	lastPutOn := map[int]string{}    // object -> shard of its last Put visit
 	tainted := map[int]bool{}   // object -> a mutation of it FAILED after the simulator failed one of its shard calls / met a non-read-write shard
 	next := 0
 	final := false // the closing phase: GC has settled, every object is read once more, nothing is failed
@@ -268,6 +270,18 @@ func runC20(r *simkit.R) {
 			}
 		},
 		verdict: func(key string) int {
+			// (bookkeeping for the diagnosis: which shard took a removal mark / a put of which object)
+			if kf := strings.Split(key, ":"); len(kf) == 3 && (kf[1] == "mark" || kf[1] == "put") {
+				for x := 0; x < nreg; x++ {
+					if strings.Contains(kf[2], short(w.addr(x).Object())) {
+						if kf[1] == "mark" {
+							markedOn[[2]string{fmt.Sprint(x), kf[0]}] = true
+						} else {
+							lastPutOn[x] = kf[0]
+						}
+					}
+				}
+			}
 			if final || faultPct == 0 || !r.Bool(faultPct) {
 				return vOK
 			}
@@ -337,6 +351,11 @@ func runC20(r *simkit.R) {
 							out.bad = "another broadcast of the same tombstone was still in flight"
 						}
 					}
+				}
+				if op.kind == "put" && op.err == nil && !op.faulted && markedOn[[2]string{fmt.Sprint(op.id), lastPutOn[op.id]}] {
+					// (metabase Put to an address that carries a garbage mark reports success while the
+					// object stays hidden and is collected: findings F04 / F17 of the shard worlds)
+					out.bad = "its address carried a removal mark on the shard that stored it"
 				}
 				if op.kind == "put" && op.err == nil {
 					for _, h := range w.holders(op.id) {
